@@ -327,7 +327,7 @@ func (m *monitor) run(line string) string {
 		}
 		m.prev = w.observe()
 		return res
-	case "dump":
+	case "dump", "config":
 		return res
 	}
 	if strings.HasPrefix(res, "PANIC") {
@@ -588,7 +588,7 @@ func witnesses() map[string][]string {
 	a1, a2 := a20(0xa1), a20(0xa2)
 	hid := hx.Hex(common.Sha256([]byte{0x11}))
 	pre := func(ids string) []string {
-		return []string{"reset 100", "uni " + ids + " " + a1 + "," + a2 + " " + a1 + "," + a2,
+		return []string{"config dev", "reset 100", "uni " + ids + " " + a1 + "," + a2 + " " + a1 + "," + a2,
 			"bal " + a1 + " 100000" + e18, "bal " + a2 + " 100000" + e18}
 	}
 	return map[string][]string{
@@ -654,6 +654,7 @@ func runSearch(out *hx.Out, r *hx.Rng, thorough bool) {
 		}
 		idx := make([]int, depth)
 		for {
+			runS("config dev")
 			runS("reset 100")
 			runS("uni 11,22 " + a1 + "," + a2 + " " + a1 + "," + a2)
 			runS("bal " + a1 + " 100000" + e18)
